@@ -303,6 +303,49 @@ func init() {
 						return st.final("")
 					}
 				}},
+			{Name: "h: a merger cycle fails (merge operand, no MergeOperator configured) while a synchronous NotifyMerger is pending; nobody closes - the notification still returns",
+				Build: func() (*World, func() *Violation, func(string) []Violation) {
+					w, st := c16World(Config{Backing: "none", MinMergePct: 0.01, MaxPre: 3})
+					if w.infra != "" {
+						return w, nil, st.final
+					}
+					st.spawn("writer", func() {
+						st.call("ExecuteBatch#w.1", func() (string, error) {
+							b, err := w.coll.NewBatch(4, 64)
+							if err != nil {
+								return "newbatch", err
+							}
+							b.Set([]byte("a"), []byte("1"))
+							b.Set([]byte("z"), []byte("1"))
+							err = w.coll.ExecuteBatch(b, moss.WriteOptions{})
+							b.Close()
+							return "", err
+						})
+						st.call("ExecuteBatch#w.2", func() (string, error) {
+							b, err := w.coll.NewBatch(4, 64)
+							if err != nil {
+								return "newbatch", err
+							}
+							b.Merge([]byte("m"), []byte("x"))
+							err = w.coll.ExecuteBatch(b, moss.WriteOptions{})
+							b.Close()
+							return "", err
+						})
+					})
+					st.spawn("notifier", func() {
+						st.call("NotifyMerger#sync", func() (string, error) {
+							return "", w.coll.(interface{ NotifyMerger(string, bool) error }).NotifyMerger("mergeAll", true)
+						})
+					})
+					return w, st.invariant, func(deadlock string) []Violation {
+						for _, c := range st.calls {
+							if c.returned == 0 {
+								return st.final(deadlock)
+							}
+						}
+						return st.final("")
+					}
+				}},
 			{Name: "d: after Close has returned: NewBatch, Snapshot, Get, ExecuteBatch(non-empty), ExecuteBatch(empty), NotifyMerger(sync)",
 				Build: func() (*World, func() *Violation, func(string) []Violation) {
 					w, st := c16World(Config{Backing: "store", MinMergePct: 100, MaxPre: 1})
